@@ -334,13 +334,18 @@ fn udp_body_bytes(b: &UdpBody) -> Vec<u8> {
 
 /// AES variants: `keys` = [iPSK0.., uPSK] for client packets; for server packets pass the single key that encrypts header and body.
 pub fn udp_packet_aes(cipher: &str, keys: &[Vec<u8>], b: &UdpBody) -> Vec<u8> {
+    udp_packet_aes_raw(cipher, keys, b.session_id, b.packet_id, &udp_body_bytes(b))
+}
+
+/// The same datagram layout around a caller-chosen (possibly malformed) body: well authenticated, wrong inside.
+pub fn udp_packet_aes_raw(cipher: &str, keys: &[Vec<u8>], session_id: u64, packet_id: u64, body: &[u8]) -> Vec<u8> {
     let aead = tcp_aead(cipher).unwrap();
     let n = aead.key_len();
     let mut header = [0u8; 16];
-    header[..8].copy_from_slice(&b.session_id.to_be_bytes());
-    header[8..].copy_from_slice(&b.packet_id.to_be_bytes());
+    header[..8].copy_from_slice(&session_id.to_be_bytes());
+    header[8..].copy_from_slice(&packet_id.to_be_bytes());
     let nonce = header[4..16].to_vec();
-    let body_key = session_subkey(keys.last().unwrap(), &b.session_id.to_be_bytes(), n);
+    let body_key = session_subkey(keys.last().unwrap(), &session_id.to_be_bytes(), n);
     let mut enc_header = header;
     aes_ecb_encrypt_block(&keys[0], &mut enc_header);
     let mut out = enc_header.to_vec();
@@ -352,7 +357,7 @@ pub fn udp_packet_aes(cipher: &str, keys: &[Vec<u8>], b: &UdpBody) -> Vec<u8> {
         aes_ecb_encrypt_block(&keys[i], &mut block);
         out.extend_from_slice(&block);
     }
-    out.extend(aead.seal(&body_key, &nonce, &[], &udp_body_bytes(b)));
+    out.extend(aead.seal(&body_key, &nonce, &[], body));
     out
 }
 
@@ -382,10 +387,14 @@ pub fn udp_packet_aes_mismatched(cipher: &str, keys: &[Vec<u8>], body_psk: &[u8]
 }
 
 pub fn udp_packet_chacha(cipher: &str, key: &[u8], nonce24: &[u8; 24], b: &UdpBody) -> Vec<u8> {
+    udp_packet_chacha_raw(cipher, key, nonce24, b.session_id, b.packet_id, &udp_body_bytes(b))
+}
+
+pub fn udp_packet_chacha_raw(cipher: &str, key: &[u8], nonce24: &[u8; 24], session_id: u64, packet_id: u64, body: &[u8]) -> Vec<u8> {
     let aead = if cipher.contains("chacha8") { Aead::XChaCha8Poly1305 } else { Aead::XChaCha20Poly1305 };
-    let mut pt = b.session_id.to_be_bytes().to_vec();
-    pt.extend_from_slice(&b.packet_id.to_be_bytes());
-    pt.extend(udp_body_bytes(b));
+    let mut pt = session_id.to_be_bytes().to_vec();
+    pt.extend_from_slice(&packet_id.to_be_bytes());
+    pt.extend_from_slice(body);
     let mut out = nonce24.to_vec();
     out.extend(aead.seal(key, nonce24, &[], &pt));
     out
